@@ -279,4 +279,366 @@ theorem pull_off_survives_delivery (wt : K → K) (w : World K) (e : Ev) (bell :
   obtain ⟨h1, h2⟩ := deliver_never_rings wt w e
   exact ⟨h1.trans hpc, h2, fun hs => pull_off_only_polls _ wt bell uc hand (h1.trans hpc) hs⟩
 
+/-! ### Nothing before the leader, however long, whatever else arrives -/
+
+section PullOff
+
+/-- The line is not anchored, and the only expectation of the rhythm that sits at blow 0 is the leader's. -/
+def Unanchored (w : World K) (lead : Nat) : Prop :=
+  w.rh.reg.start = .inf ∧
+  ∀ p ∈ w.rh.reg.expected, w.rh.reg.blowTime p.2.1 p.2.2 = 0 → p.1.1 = lead
+
+/-- Events that are neither a strike of the leading bell, nor Look To, nor the second half of a Look To handler:
+other bells' strikes, every other call, Stop Touch, assignments, settings, selections, size changes. -/
+def QuietLead (lead : Nat) : Ev → Prop
+  | .resume => False
+  | .msg (.bellRung _ who) => who ≠ lead
+  | .msg (.call c) => c ≠ Generated.call_LOOK_TO
+  | .msg _ => True
+
+def harmlessL (lead : Nat) : Out → Bool
+  | .rInit _ _ _ => false
+  | .rExpect _ _ _ _ => false
+  | .rBellRing b _ => b != lead
+  | _ => true
+
+theorem addDataPoint_frame (r : Reg K) (reg : List (K × K × K) → K × K) (row place : Nat) (t wgt : K) :
+    (r.addDataPoint reg row place t wgt).stage = r.stage ∧ (r.addDataPoint reg row place t wgt).gap = r.gap ∧
+    (r.addDataPoint reg row place t wgt).expected = r.expected := by
+  unfold Reg.addDataPoint
+  simp only []
+  generalize (if 0 < row then r.preferredInertia else r.initialInertia) = inertia
+  by_cases h1 : Num.eqb inertia (Num.ofNat 1) = true
+  · rw [if_pos h1]; exact ⟨rfl, rfl, rfl⟩
+  · rw [if_neg h1]
+    by_cases h2 : r.minBells ≤ ((r.newDataSet row place t wgt).length : Int)
+    · rw [if_pos h2]
+      unfold Reg.relerp
+      simp only []
+      cases r.start <;> exact ⟨rfl, rfl, rfl⟩
+    · rw [if_neg h2]; exact ⟨rfl, rfl, rfl⟩
+
+theorem onBellRing_frame (r : Reg K) (wt : K → K) (reg : List (K × K × K) → K × K) (b : Nat) (h : Bool) (t : K) :
+    (r.onBellRing wt reg b h t).stage = r.stage ∧ (r.onBellRing wt reg b h t).gap = r.gap ∧
+    (∀ p ∈ (r.onBellRing wt reg b h t).expected, p ∈ r.expected) := by
+  unfold Reg.onBellRing
+  split
+  · exact ⟨rfl, rfl, fun p hp => hp⟩
+  · simp only []
+    split
+    · obtain ⟨h1, h2, h3⟩ := addDataPoint_frame ({ r with start := Time.fin t } : Reg K) reg _ _ t _
+      refine ⟨h1, h2, ?_⟩
+      intro p hp
+      have := (List.mem_filter.mp hp).1
+      rw [h3] at this
+      exact this
+    · obtain ⟨h1, h2, h3⟩ := addDataPoint_frame r reg _ _ t _
+      refine ⟨h1, h2, ?_⟩
+      intro p hp
+      have := (List.mem_filter.mp hp).1
+      rw [h3] at this
+      exact this
+
+theorem blowTime_frame (r r' : Reg K) (hs : r'.stage = r.stage) (hg : r'.gap = r.gap) (row place : Nat) :
+    r'.blowTime row place = r.blowTime row place := by
+  unfold Reg.blowTime Reg.line indexToBlowTime
+  simp only [hs, hg]
+
+theorem lookup_mem (r : Reg K) (b : Nat) (h : Bool) (rp : Nat × Nat) (hl : r.lookupExpected b h = some rp) :
+    ((b, h), rp) ∈ r.expected := by
+  unfold Reg.lookupExpected at hl
+  split at hl
+  · rename_i p hp
+    simp only [Option.some.injEq] at hl
+    have hm := List.mem_of_find?_eq_some hp
+    have hk := List.find?_some hp
+    simp only [beq_iff_eq] at hk
+    have : p = ((b, h), rp) := by
+      cases p with
+      | mk k v => simp only at hk hl; subst hk; subst hl; rfl
+    rw [← this]; exact hm
+  · cases hl
+
+/-- A strike of a bell other than the leader leaves the line unanchored. -/
+theorem onBellRing_unanchored (r : Reg K) (wt : K → K) (reg : List (K × K × K) → K × K) (b : Nat) (h : Bool) (t : K)
+    (lead : Nat) (hb : b ≠ lead) (hs : r.start = .inf)
+    (hi : ∀ p ∈ r.expected, r.blowTime p.2.1 p.2.2 = 0 → p.1.1 = lead) :
+    (r.onBellRing wt reg b h t).start = .inf ∧
+    ∀ p ∈ (r.onBellRing wt reg b h t).expected, (r.onBellRing wt reg b h t).blowTime p.2.1 p.2.2 = 0 → p.1.1 = lead := by
+  obtain ⟨f1, f2, f3⟩ := onBellRing_frame r wt reg b h t
+  refine ⟨?_, ?_⟩
+  · apply only_leader_anchors r wt reg b h t hs
+    intro row place hl h0
+    have := hi _ (lookup_mem r b h (row, place) hl) h0
+    exact hb this
+  · intro p hp h0
+    rw [blowTime_frame r _ f1 f2] at h0
+    exact hi p (f3 p hp) h0
+
+theorem changePealSpeed_unanchored (r : Reg K) (sp t : K) (lead : Nat) (hs : r.start = .inf)
+    (hi : ∀ p ∈ r.expected, r.blowTime p.2.1 p.2.2 = 0 → p.1.1 = lead) :
+    (r.changePealSpeed sp t).start = .inf ∧
+    ∀ p ∈ (r.changePealSpeed sp t).expected, (r.changePealSpeed sp t).blowTime p.2.1 p.2.2 = 0 → p.1.1 = lead := by
+  have e : (r.changePealSpeed sp t).start = .inf ∧ (r.changePealSpeed sp t).expected = r.expected ∧
+      (r.changePealSpeed sp t).stage = r.stage ∧ (r.changePealSpeed sp t).gap = r.gap := by
+    unfold Reg.changePealSpeed
+    simp only []
+    split
+    · exact ⟨hs, rfl, rfl, rfl⟩
+    · rw [hs]; exact ⟨rfl, rfl, rfl, rfl⟩
+  obtain ⟨e1, e2, e3, e4⟩ := e
+  refine ⟨e1, ?_⟩
+  intro p hp h0
+  rw [blowTime_frame r _ e3 e4] at h0
+  rw [e2] at hp
+  exact hi p hp h0
+
+theorem withReg_reg (w : World K) (f : (List (K × K × K) → K × K) → Reg K) :
+    ∃ g, (w.withReg f).rh.reg = f g := by
+  unfold World.withReg
+  simp only []
+  exact ⟨_, ite_proj (fun x : World K => x.rh.reg) _ _ _ _ rfl rfl⟩
+
+theorem applyOut_harmlessL (wt : K → K) (ct : K) (w : World K) (o : Out) (lead : Nat)
+    (ho : harmlessL lead o = true) (hu : Unanchored w lead) : Unanchored (World.applyOut wt ct w o) lead := by
+  obtain ⟨hs, hi⟩ := hu
+  cases o with
+  | rInit _ _ _ => simp [harmlessL] at ho
+  | rExpect _ _ _ _ => simp [harmlessL] at ho
+  | rBellRing b h =>
+    have hb : b ≠ lead := by simpa [harmlessL] using ho
+    unfold World.applyOut
+    simp only []
+    split
+    · exact ⟨hs, hi⟩
+    · obtain ⟨g, hg⟩ := withReg_reg ({ w with obs := { t := w.now, out := Out.rBellRing b h } :: w.obs } : World K)
+        (fun regf => w.rh.reg.onBellRing wt regf b h (w.now - World.delay ({ w with obs := { t := w.now, out := Out.rBellRing b h } :: w.obs } : World K)))
+      show (World.withReg _ _).rh.reg.start = .inf ∧ ∀ p ∈ (World.withReg _ _).rh.reg.expected, _
+      rw [hg]
+      exact onBellRing_unanchored w.rh.reg wt g b h _ lead hb hs hi
+  | rSetting key v =>
+    unfold World.applyOut
+    simp only []
+    split
+    · exact ⟨hs, hi⟩
+    · split
+      · split
+        · split
+          · exact changePealSpeed_unanchored w.rh.reg _ _ lead hs hi
+          · exact ⟨hs, hi⟩
+        all_goals exact ⟨hs, hi⟩
+      · split
+        · split
+          · split
+            · exact ⟨hs, hi⟩
+            · exact ⟨hs, hi⟩
+          all_goals exact ⟨hs, hi⟩
+        · exact ⟨hs, hi⟩
+  | rReturn => unfold World.applyOut; simp only []; split <;> exact ⟨hs, hi⟩
+  | ring _ _ => unfold World.applyOut; simp only []; split <;> exact ⟨hs, hi⟩
+  | call _ => unfold World.applyOut; simp only []; split <;> exact ⟨hs, hi⟩
+  | setIsRinging _ => unfold World.applyOut; simp only []; split <;> exact ⟨hs, hi⟩
+  | rollCall _ => unfold World.applyOut; simp only []; split <;> exact ⟨hs, hi⟩
+  | join => unfold World.applyOut; simp only []; split <;> exact ⟨hs, hi⟩
+  | requestState => unfold World.applyOut; simp only []; split <;> exact ⟨hs, hi⟩
+  | crash _ => unfold World.applyOut; simp only []; split <;> exact ⟨hs, hi⟩
+
+theorem foldl_applyOut_harmlessL (wt : K → K) (ct : K) (lead : Nat) (outs : List Out) :
+    ∀ (w : World K), (∀ o ∈ outs, harmlessL lead o = true) → Unanchored w lead →
+      Unanchored (outs.foldl (World.applyOut wt ct) w) lead := by
+  induction outs with
+  | nil => intro w _ hu; exact hu
+  | cons o rest ih =>
+    intro w h hu
+    simp only [List.foldl_cons]
+    exact ih _ (fun o' ho' => h o' (by simp [ho'])) (applyOut_harmlessL wt ct w o lead (h o (by simp)) hu)
+
+theorem foldSettings_harmlessL (lead : Nat) :
+    ∀ (kvs : List (String × SVal)) (b : Bot), ∀ o ∈ (foldSettings b kvs).2, harmlessL lead o = true := by
+  intro kvs
+  induction kvs with
+  | nil => intro b o ho; simp [foldSettings] at ho
+  | cons kv rest ih =>
+    intro b o ho
+    obtain ⟨k, v⟩ := kv
+    simp only [foldSettings, List.mem_append] at ho
+    rcases ho with h | h
+    · unfold Bot.onSetting at h
+      split at h
+      · simp at h
+      · split at h
+        · simp at h
+        · split at h
+          · simp at h
+          · simp at h; subst h; rfl
+    · exact ih _ o h
+
+theorem makeCalls_harmlessL (b : Bot) (cs : List String) (lead : Nat) : ∀ o ∈ b.makeCalls cs, harmlessL lead o = true := by
+  intro o ho
+  unfold Bot.makeCalls at ho
+  split at ho
+  · rw [List.mem_map] at ho
+    obtain ⟨x, _, rfl⟩ := ho
+    rfl
+  · simp at ho
+
+/-- What the handler of such a message hands to the rhythm cannot anchor the line. -/
+theorem onMsg_quietLead (b : Bot) (m : Msg) (lead : Nat) (hq : QuietLead lead (.msg m)) :
+    ∀ o ∈ (b.onMsg m).2, harmlessL lead o = true := by
+  intro o ho
+  unfold Bot.onMsg at ho
+  simp only [] at ho
+  cases m with
+  | bellRung st who =>
+    simp only [] at ho
+    split at ho
+    · simp at ho
+    · split at ho
+      · simp at ho; subst ho
+        have : who ≠ lead := hq
+        simp [harmlessL, this]
+      · simp at ho
+  | globalState st =>
+    simp only [] at ho
+    unfold Bot.onSizeChange at ho
+    split at ho
+    · simp at ho; subst ho; rfl
+    · simp at ho
+  | sizeChange n =>
+    simp only [] at ho
+    split at ho
+    · unfold Bot.onSizeChange at ho
+      split at ho
+      · simp at ho; subst ho; rfl
+      · simp at ho
+    · simp at ho
+  | call c =>
+    simp only [] at ho
+    have hc : (c == Generated.call_LOOK_TO) = false := by
+      have : c ≠ Generated.call_LOOK_TO := hq
+      simpa using this
+    unfold Bot.onCall at ho
+    simp only [hc, Bool.false_eq_true, if_false] at ho
+    split at ho
+    · unfold Bot.onGo at ho
+      split at ho
+      · exact makeCalls_harmlessL _ _ lead o ho
+      · simp at ho
+    · repeat' split at ho
+      all_goals simp at ho
+  | setting kvs =>
+    simp only [] at ho
+    split at ho
+    · exact foldSettings_harmlessL lead _ _ o ho
+    · simp at ho
+  | rowGen g =>
+    simp only [] at ho
+    repeat' split at ho
+    all_goals simp at ho
+  | stopTouch =>
+    simp only [] at ho
+    split at ho
+    · simp at ho; rcases ho with rfl | rfl <;> rfl
+    · simp at ho
+  | userEntered _ _ => simp at ho
+  | userList _ => simp at ho
+  | assign _ _ => simp at ho
+  | userLeft _ => simp at ho
+
+theorem lookToSuspends_quietLead (w : World K) (m : Msg) (lead : Nat) (hq : QuietLead lead (.msg m)) :
+    w.lookToSuspends m = none := by
+  unfold World.lookToSuspends
+  cases m with
+  | call c =>
+    have hc : (c == Generated.call_LOOK_TO) = false := by
+      have : c ≠ Generated.call_LOOK_TO := hq
+      simpa using this
+    simp [hc]
+  | _ => rfl
+
+theorem deliver_quietLead (wt : K → K) (w : World K) (e : Ev) (lead : Nat) (hq : QuietLead lead e)
+    (hu : Unanchored w lead) : Unanchored (World.deliver wt w e) lead := by
+  cases e with
+  | resume => exact absurd hq (by simp [QuietLead])
+  | msg m =>
+    unfold World.deliver
+    simp only [lookToSuspends_quietLead w m lead hq]
+    unfold World.deliverMsg
+    simp only []
+    have hb : Unanchored ({ w with bot := (w.bot.onMsg m).1 } : World K) lead := hu
+    have := foldl_applyOut_harmlessL wt w.now lead (w.bot.onMsg m).2 _ (onMsg_quietLead w.bot m lead hq) hb
+    split
+    · exact this
+    · exact this
+
+theorem sleep_go_quietLead (wt : K → K) (limit : K) (lead : Nat) :
+    ∀ (events : List (K × Ev)) (w : World K), (∀ ev ∈ events, QuietLead lead ev.2) → Unanchored w lead →
+      Unanchored (World.sleep.go wt limit w events).1 lead ∧
+      (∀ ev ∈ (World.sleep.go wt limit w events).2, QuietLead lead ev.2) := by
+  intro events
+  induction events with
+  | nil => intro w _ hu; exact ⟨hu, by intro ev h; cases h⟩
+  | cons ev rest ih =>
+    intro w hq hu
+    obtain ⟨t, m⟩ := ev
+    unfold World.sleep.go
+    split
+    · have hu1 : Unanchored (if w.now < t then ({ w with now := t } : World K) else w) lead := by
+        split
+        · exact hu
+        · exact hu
+      exact ih _ (fun ev' h' => hq ev' (by simp [h'])) (deliver_quietLead wt _ m lead (hq (t, m) (by simp)) hu1)
+    · exact ⟨hu, hq⟩
+
+theorem sleep_quietLead (wt : K → K) (endTime : K) (w : World K) (d : K) (events : List (K × Ev)) (lead : Nat)
+    (hq : ∀ ev ∈ events, QuietLead lead ev.2) (hu : Unanchored w lead) :
+    Unanchored (World.sleep wt endTime w d events).1 lead ∧
+    (∀ ev ∈ (World.sleep wt endTime w d events).2.1, QuietLead lead ev.2) := by
+  unfold World.sleep
+  simp only []
+  split
+  · exact sleep_go_quietLead wt endTime lead events w hq hu
+  · obtain ⟨h1, h2⟩ := sleep_go_quietLead wt (w.now + d) lead events w hq hu
+    exact ⟨h1, h2⟩
+
+/-- **Nothing before the leader, however long and whatever else arrives.**  The main thread is in the pull-off
+loop, the line is unanchored and the only expectation at blow 0 is the leader's.  If none of the events still to
+come is a strike of the leading bell or a Look To - they may be anything else: the other ringers striking before
+the leader, calls, Stop Touch, settings, assignments, size changes - then for the whole rest of the run, of
+whatever length, Wheatley strikes nothing. -/
+theorem silent_until_the_leader_pulls_off (wt : K → K) (endTime : K) (lead bell : Nat) (uc hand : Bool) :
+    ∀ (fuel : Nat) (w : World K) (events : List (K × Ev)),
+      w.pc = .pullOff bell uc hand → Unanchored w lead → (∀ ev ∈ events, QuietLead lead ev.2) →
+      ringsOf (World.run wt endTime fuel w events).1.obs = ringsOf w.obs := by
+  intro fuel
+  induction fuel with
+  | zero => intro w events _ _ _; rfl
+  | succ fuel ih =>
+    intro w events hpc hu hq
+    have hstep := pull_off_only_polls w wt bell uc hand hpc hu.1
+    unfold World.run
+    simp only [hstep]
+    obtain ⟨sp, sr⟩ := sleep_never_rings wt endTime w (Num.ofQ waitSleepTime) events
+    obtain ⟨su, sq⟩ := sleep_quietLead wt endTime w (Num.ofQ waitSleepTime) events lead hq hu
+    split
+    · exact sr
+    · rw [ih _ _ (sp.trans hpc) su sq]
+      exact sr
+
+/-- Non-vacuity: after Look To with a human on the treble, the rhythm expects bell 1 at (row 0, place 0) and bell 3
+at (row 0, place 2): only the leader's expectation sits at blow 0. -/
+example (r : Reg ℚ) (hs : r.start = .inf) (he : r.expected = [((1, true), (0, 0)), ((3, true), (0, 2))]) :
+    ∀ p ∈ r.expected, r.blowTime p.2.1 p.2.2 = 0 → p.1.1 = 1 := by
+  intro p hp h0
+  rw [he] at hp
+  simp only [List.mem_cons, List.not_mem_nil, or_false] at hp
+  rcases hp with rfl | rfl
+  · rfl
+  · exfalso
+    revert h0
+    simp [Reg.blowTime, Reg.line, indexToBlowTime, num_ofNat]
+
+end PullOff
+
+
 end Wheatley.C15
